@@ -56,9 +56,12 @@ func (f *If) Call(s *slip.Scope, args slip.List, depth int) (result slip.Object)
 	result = nil
 	d2 := depth + 1
 	pos := 0
-	test := slip.EvalArg(s, args, pos, d2) != nil
+	test := slip.EvalArg(s, args, pos, d2)
+	if slip.IsExit(test) {
+		return test
+	}
 	pos++
-	if test {
+	if test != nil {
 		result = slip.EvalArg(s, args, pos, d2)
 	} else if pos < len(args)-1 {
 		pos++
